@@ -171,6 +171,13 @@ func convertVMFunctionToType(rv reflect.Value, rt reflect.Type) (reflect.Value, 
 		for i := 0; i < rt.NumIn(); i++ {
 			if rv.Type().IsVariadic() && i+1 >= rv.Type().NumIn()-1 {
 				// the variadic parameter of a runVMFunction takes the values as they are
+				if rt.IsVariadic() && i == rt.NumIn()-1 {
+					// Go handed over its own variadic arguments as one slice: pass them on one by one
+					for j := 0; j < in[i].Len(); j++ {
+						args = append(args, in[i].Index(j))
+					}
+					continue
+				}
 				args = append(args, in[i])
 				continue
 			}
